@@ -893,7 +893,23 @@ package fit
 //@ spec rec fsum(fds []fieldDef, k int) int := ite(k <= 0, 0, fsum(fds, k-1)+int(fds[k-1].size))
 //@ spec rec dsum(dds []devDataFieldDesc, k int) int := ite(k <= 0, 0, dsum(dds, k-1)+int(dds[k-1].size))
 
+//@@ C16: how often field number n occurs among the first k field definitions
+//@ spec rec fcount(fds []fieldDef, k int, n byte) int := ite(k <= 0, 0, fcount(fds, k-1, n)+ite(fds[k-1].num == n, 1, 0))
+
 //@ func (d *decoder) parseDataFields(dm *defmsg, knownMsg bool, msgv reflect.Value) (r reflect.Value, err error)
+//@@ C16: a record of a known message adds, for every field number that the profile does not list for that message,
+//@@ the number of times the definition carries it (once, in any sensible definition) to that field's count; nothing
+//@@ else is counted: not for unknown messages, not with the option off, not under other message numbers
+//@   slow unk-fields 90
+//@   slow unk-fields-others 90
+//@   ensures [unk-fields] {C16} err == nil && knownMsg && d.opts.unknownFields ==> (forall n byte :: (!pfound(dm.globalMsgNum, n) ==>
+//@  |   d.unknownFields[unknownField{dm.globalMsgNum, n}] == old(d.unknownFields[unknownField{dm.globalMsgNum, n}])+fcount(dm.fieldDefs, len(dm.fieldDefs), n)))
+//@   ensures [unk-fields-listed] {C16} forall n byte :: (pfound(dm.globalMsgNum, n) || !knownMsg || !d.opts.unknownFields ==> d.unknownFields[unknownField{dm.globalMsgNum, n}] == old(d.unknownFields[unknownField{dm.globalMsgNum, n}]))
+//@   ensures [unk-fields-others] {C16} forall mm MesgNum :: (forall n byte :: (mm != dm.globalMsgNum ==> d.unknownFields[unknownField{mm, n}] == old(d.unknownFields[unknownField{mm, n}])))
+//@   loop 0 invariant [unk-fields] {C16} knownMsg && d.opts.unknownFields ==> (forall n byte :: (!pfound(dm.globalMsgNum, n) ==>
+//@  |   d.unknownFields[unknownField{dm.globalMsgNum, n}] == old(d.unknownFields[unknownField{dm.globalMsgNum, n}])+fcount(dm.fieldDefs, rangeindex+1, n)))
+//@   loop 0 invariant [unk-fields-listed] {C16} forall n byte :: (pfound(dm.globalMsgNum, n) || !knownMsg || !d.opts.unknownFields ==> d.unknownFields[unknownField{dm.globalMsgNum, n}] == old(d.unknownFields[unknownField{dm.globalMsgNum, n}]))
+//@   loop 0 invariant [unk-fields-others] {C16} forall mm MesgNum :: (forall n byte :: (mm != dm.globalMsgNum ==> d.unknownFields[unknownField{mm, n}] == old(d.unknownFields[unknownField{mm, n}])))
 //@   slow record-length 90
 //@   slow content 90
 //@   ensures [record-length] {C02 C13} err == nil ==> d.bytes.n == old(d.bytes.n)+fsum(dm.fieldDefs, len(dm.fieldDefs))+dsum(dm.devDataFieldDescs, len(dm.devDataFieldDescs))
